@@ -129,7 +129,7 @@ def exhaustive_plan(quick):
                       loads="LoadTall4", initts=tset([4]), shared=tset([True]), maxhist=1 if quick else 2)))
     # E8: deletes of MISSING keys and failing delete_exact right where a merge at the root is possible
     #     (a root of one key over two leaves that are minimal or one delete away from it), on a COW clone
-    plan.append(("E8-missing-key-deletes-at-root", 2,
+    plan.append(("E8-missing-key-deletes-at-root", 2 if quick else 1,
                  dict(ops=tset(["del", "delx"]), maxkey=7, handles=tset([1, 2]), ophandles=tset([2]), opkeys="<- SimKeys",
                       loads="LoadRootMerge", shared=tset([True]), maxhist=2 if quick else 3,
                       delforms=tset(["item", "key", "discard"] if quick else ["key", "discard"]))))
